@@ -498,6 +498,7 @@ def preprocess_tree_sequences(
             result_sequence.append((result_matrix, label_sequence))
     else:
         result_sequence = []
+        token_dictionary = dict(token_dictionary)
         if masking in token_dictionary:
             del token_dictionary[masking]
 
@@ -672,6 +673,7 @@ def preprocess_token_sequences(
             )
     else:
         result_sequences = List()
+        token_dictionary = dict(token_dictionary)
         if masking in token_dictionary:
             del token_dictionary[masking]
 
@@ -852,6 +854,7 @@ def preprocess_timed_token_sequences(
             )
     else:
         result_sequences = List()
+        token_dictionary = dict(token_dictionary)
         if masking in token_dictionary:
             del token_dictionary[masking]
 
@@ -1038,6 +1041,7 @@ def preprocess_multi_token_sequences(
                 )
             full_sequence.append(result_sequences)
     else:
+        token_dictionary = dict(token_dictionary)
         if masking in token_dictionary:
             del token_dictionary[masking]
 
